@@ -347,4 +347,15 @@ Proof.
     exists k, a, ka. repeat split; auto.
 Qed.
 
+(* C19: who can trigger / redirect an emissions payout *)
+Lemma emission_withdraw_signer e :
+  In e accounts_table -> e_ix e = "lending_account_withdraw_emissions" ->
+  forall w b sg, accepts e w b sg = true -> user_rule w b sg false "marginfi_account" "authority" "group".
+Proof. intros H E. apply (user_ops e false _ _ _ H). rewrite E. reflexivity. Qed.
+
+Lemma emission_destination_owner e :
+  In e accounts_table -> e_ix e = "marginfi_account_update_emissions_destination_account" ->
+  forall w b sg, accepts e w b sg = true -> owner_rule w b sg "marginfi_account" "authority".
+Proof. intros H E. apply (owner_ops e _ _ H). rewrite E. reflexivity. Qed.
+
 End T.
